@@ -150,9 +150,39 @@ func (fr *FnRun) runIfMerged(st *State, b *ssa.BasicBlock, c *Term, depth int, k
 	run(st2, fb)
 	nF := len(arrived) - nT
 	if nT == 1 && nF == 1 {
+		fr.mergeMade = nil
 		if m := fr.mergeStates(arrived[0], arrived[1], c, base, J); m != nil {
-			fr.runFrom(m, J, nil, depth, k)
-			return true
+			made := fr.mergeMade
+			if len(made) == 0 {
+				fr.runFrom(m, J, nil, depth, k)
+				return true
+			}
+			// the merge introduced array objects joined from two different backing arrays; if the
+			// code after the join writes into one of them in place, the merge is undone (obligations
+			// recorded so far by the merged continuation are dropped) and both arms continue separately
+			ex := fr.ex
+			snapO, snapC, snapN := len(ex.Obls), len(ex.Covers), fr.nobl
+			ok := func() (ok bool) {
+				defer func() {
+					if r := recover(); r != nil {
+						if ae, isA := r.(*abortErr); isA && ae.mergedWrite != nil {
+							for _, o := range made {
+								if o == ae.mergedWrite {
+									ok = false
+									return
+								}
+							}
+						}
+						panic(r)
+					}
+				}()
+				fr.runFrom(m, J, nil, depth, k)
+				return true
+			}()
+			if ok {
+				return true
+			}
+			ex.Obls, ex.Covers, fr.nobl = ex.Obls[:snapO], ex.Covers[:snapC], snapN
 		}
 	}
 	for _, a := range arrived {
@@ -197,6 +227,8 @@ func (fr *FnRun) mergeStates(a, b arrival, c *Term, base int, J *ssa.BasicBlock)
 		}
 	}
 	m := sa.clone()
+	fr.mergeInto = m
+	defer func() { fr.mergeInto = nil }()
 	// facts: common prefix, then guarded branch facts
 	m.facts = append([]*Term(nil), sa.facts[:base]...)
 	m.facts = append(m.facts, Implies(c, And(sa.facts[base:]...)), Implies(Not(c), And(sb.facts[base:]...)))
@@ -284,6 +316,16 @@ func (fr *FnRun) mergeVal(sa, sb *State, c *Term, a, b Val) Val {
 	switch x := a.(type) {
 	case *Term:
 		if y, ok := b.(*Term); ok && x.Sort == y.Sort {
+			if x.Sort.IsArr() {
+				return fr.iteArr(c, x, y)
+			}
+			// a large merged scalar is named (printing shares nothing, so nested ite terms over
+			// running lengths would otherwise double in size at every gate)
+			if fr.mergeInto != nil && !sameTerm(x, y) && (termBigger(x, 12) || termBigger(y, 12)) {
+				mv := Var(fr.ex.fresh("let!merged"), x.Sort)
+				fr.mergeInto.facts = append(fr.mergeInto.facts, Eq(mv, Ite(c, x, y)))
+				return mv
+			}
 			return Ite(c, x, y)
 		}
 	case *StructV:
@@ -320,18 +362,39 @@ func (fr *FnRun) mergeVal(sa, sb *State, c *Term, a, b Val) Val {
 	case *SliceV:
 		if y, ok := b.(*SliceV); ok && x.ViewW == y.ViewW && samePath(x.Base, y.Base) {
 			if x.Arr == y.Arr {
-				return &SliceV{Nil: Ite(c, x.Nil, y.Nil), Arr: x.Arr, Off: Ite(c, x.Off, y.Off), Len: Ite(c, x.Len, y.Len), Cap: Ite(c, x.Cap, y.Cap), Elem: x.Elem, ViewW: x.ViewW, ViewElem: x.ViewElem, Base: x.Base}
+				return &SliceV{Nil: Ite(c, x.Nil, y.Nil), Arr: x.Arr, Off: fr.iteS(c, x.Off, y.Off), Len: fr.iteS(c, x.Len, y.Len), Cap: fr.iteS(c, x.Cap, y.Cap), Elem: x.Elem, ViewW: x.ViewW, ViewElem: x.ViewElem, Base: x.Base}
 			}
 			if x.Arr == nil && x.Nil.IsTrue() {
-				return &SliceV{Nil: Ite(c, tTrue, y.Nil), Arr: y.Arr, Off: y.Off, Len: Ite(c, Int(0), y.Len), Cap: Ite(c, Int(0), y.Cap), Elem: y.Elem, Base: y.Base}
+				return &SliceV{Nil: Ite(c, tTrue, y.Nil), Arr: y.Arr, Off: y.Off, Len: fr.iteS(c, Int(0), y.Len), Cap: fr.iteS(c, Int(0), y.Cap), Elem: y.Elem, Base: y.Base}
 			}
 			if y.Arr == nil && y.Nil.IsTrue() {
-				return &SliceV{Nil: Ite(c, x.Nil, tTrue), Arr: x.Arr, Off: x.Off, Len: Ite(c, x.Len, Int(0)), Cap: Ite(c, x.Cap, Int(0)), Elem: x.Elem, Base: x.Base}
+				return &SliceV{Nil: Ite(c, x.Nil, tTrue), Arr: x.Arr, Off: x.Off, Len: fr.iteS(c, x.Len, Int(0)), Cap: fr.iteS(c, x.Cap, Int(0)), Elem: x.Elem, Base: x.Base}
+			}
+			// different backing arrays of scalar elements (one arm appended through a contract, the
+			// other did not): a fresh array object whose content is the ite of both.  Writes through
+			// the merged object would not reach older aliases of either source, so the object is
+			// marked read-only for in-place writes (an in-place write aborts the function).
+			if x.Arr != nil && y.Arr != nil && x.ViewW == 0 && len(x.Base) == 0 && fr.mergeInto != nil {
+				if _, scalar := scalarSort(x.Elem); scalar {
+					da, oka := fr.arrOf(sa, x).Data.(*Term)
+					db, okb := fr.arrOf(sb, y).Data.(*Term)
+					if oka && okb && da.Sort == db.Sort {
+						o := ex.newObj(ex.fresh(accessPrefix(x.Arr.Name)+".merged"), x.Arr.T)
+						o.IsArr = true
+						o.Merged = true
+						fr.mergeMade = append(fr.mergeMade, o)
+						// a named array constant (ite terms may not occur in quantifier patterns)
+						mt := Var(o.Name, da.Sort)
+						fr.mergeInto.facts = append(fr.mergeInto.facts, Implies(c, Eq(mt, da)), Implies(Not(c), Eq(mt, db)))
+						fr.mergeInto.heap[o] = &ArrayV{Elem: x.Elem, N: -1, Data: mt}
+						return &SliceV{Nil: Ite(c, x.Nil, y.Nil), Arr: o, Off: fr.iteS(c, x.Off, y.Off), Len: fr.iteS(c, x.Len, y.Len), Cap: fr.iteS(c, x.Cap, y.Cap), Elem: x.Elem}
+					}
+				}
 			}
 		}
 	case *StrV:
 		if y, ok := b.(*StrV); ok {
-			return &StrV{Arr: Ite(c, x.Arr, y.Arr), Len: Ite(c, x.Len, y.Len)}
+			return &StrV{Arr: fr.iteArr(c, x.Arr, y.Arr), Len: fr.iteS(c, x.Len, y.Len)}
 		}
 	case *ArrayV:
 		if y, ok := b.(*ArrayV); ok && x.N == y.N {
@@ -362,7 +425,7 @@ func (fr *FnRun) mergeVal(sa, sb *State, c *Term, a, b Val) Val {
 		}
 	case *MapObjV:
 		if y, ok := b.(*MapObjV); ok {
-			return &MapObjV{Has: Ite(c, x.Has, y.Has), Val: fr.mergeArr(c, x.Val, y.Val), Len: Ite(c, x.Len, y.Len)}
+			return &MapObjV{Has: Ite(c, x.Has, y.Has), Val: fr.mergeArr(c, x.Val, y.Val), Len: fr.iteS(c, x.Len, y.Len)}
 		}
 	case *FuncV:
 		if y, ok := b.(*FuncV); ok && x.Fn == y.Fn && x.Name == y.Name && len(x.Free) == len(y.Free) {
@@ -393,6 +456,20 @@ func (fr *FnRun) mergeVal(sa, sb *State, c *Term, a, b Val) Val {
 	panic(noMerge{})
 }
 
+// iteArr merges two array-sorted terms into a named constant with guarded defining equations
+// (an ite term over arrays may not occur in a quantifier pattern).
+func (fr *FnRun) iteArr(c, a, b *Term) *Term {
+	if sameTerm(a, b) {
+		return a
+	}
+	if fr.mergeInto == nil || !a.Sort.IsArr() {
+		return Ite(c, a, b)
+	}
+	mt := Var(fr.ex.fresh("merged.arr"), a.Sort)
+	fr.mergeInto.facts = append(fr.mergeInto.facts, Implies(c, Eq(mt, a)), Implies(Not(c), Eq(mt, b)))
+	return mt
+}
+
 func (fr *FnRun) mergeArr(c *Term, a, b ArrData) ArrData {
 	if a == b {
 		return a
@@ -400,7 +477,7 @@ func (fr *FnRun) mergeArr(c *Term, a, b ArrData) ArrData {
 	switch x := a.(type) {
 	case *Term:
 		if y, ok := b.(*Term); ok && x.Sort == y.Sort {
-			return Ite(c, x, y)
+			return fr.iteArr(c, x, y)
 		}
 	case *StructArr:
 		if y, ok := b.(*StructArr); ok && len(x.F) == len(y.F) {
@@ -412,8 +489,37 @@ func (fr *FnRun) mergeArr(c *Term, a, b ArrData) ArrData {
 		}
 	case *NestedArr:
 		if y, ok := b.(*NestedArr); ok {
-			return &NestedArr{T: x.T, Data: Ite(c, x.Data, y.Data)}
+			return &NestedArr{T: x.T, Data: fr.iteArr(c, x.Data, y.Data)}
 		}
 	}
 	panic(noMerge{})
+}
+
+// iteS merges two scalars, naming the result when it is large.
+func (fr *FnRun) iteS(c, x, y *Term) *Term {
+	if fr.mergeInto != nil && !sameTerm(x, y) && !x.Sort.IsArr() && (termBigger(x, 12) || termBigger(y, 12)) {
+		mv := Var(fr.ex.fresh("let!merged"), x.Sort)
+		fr.mergeInto.facts = append(fr.mergeInto.facts, Eq(mv, Ite(c, x, y)))
+		return mv
+	}
+	return Ite(c, x, y)
+}
+
+// termBigger reports whether t has more than n nodes (tree size).
+func termBigger(t *Term, n int) bool {
+	var count func(t *Term) int
+	count = func(t *Term) int {
+		if t == nil {
+			return 0
+		}
+		c := 1
+		for _, a := range t.Args {
+			c += count(a)
+			if c > n {
+				return c
+			}
+		}
+		return c
+	}
+	return count(t) > n
 }
